@@ -31,6 +31,7 @@ def run_case(
 ) -> Tuple[cli.CliResult, str, str, str]:
     """Materialize the case (unless `paths` = already written (ini, ods)) and run its entry point; returns (result, ini, ods, outdir)."""
     folder = folder or work_dir()
+    os.makedirs(folder, exist_ok=True)
     ini, ods = paths if paths else filegen.materialize(case, folder)
     outdir = outdir or os.path.join(folder, "out")
     args = cli.build_args(
